@@ -6,6 +6,7 @@ package c01
 
 import (
 	"fmt"
+	"runtime"
 	"sort"
 	"strings"
 	"time"
@@ -107,13 +108,23 @@ func runConcurrent(c *fw.Ctx, idx int, r *fw.Rand) {
 	}
 	nsess := r.Range(2, 6)
 	boxes := []string{"shared", "other", "third"}[:r.Range(1, 3)]
+	// In two rounds of three another party empties the mailboxes while the sessions deliver
+	// (added after seeded change C01-9): it lists, removes every message it saw by id and keeps
+	// the subjects of those it removed.  An acknowledged copy is then either in the mailbox at the
+	// end or among the removed ones - "gains exactly one new message" does not become "unless
+	// somebody was deleting at that moment".
+	withRemover := idx%3 != 0
+	maxTx := 3
+	if withRemover {
+		maxTx = 8
+	}
 	type tx struct {
 		subject string
 		rcpts   []string
 	}
 	plans := make([][]tx, nsess)
 	for si := range plans {
-		for t := 0; t < r.Range(1, 3); t++ {
+		for t, nt := 0, r.Range(1, maxTx); t < nt; t++ {
 			x := tx{subject: fmt.Sprintf("cc-%d-%d-%d", idx, si, t)}
 			for k := 0; k < r.Range(1, 3); k++ {
 				x.rcpts = append(x.rcpts, r.Pick(boxes)+"@alpha.test")
@@ -180,11 +191,51 @@ func runConcurrent(c *fw.Ctx, idx int, r *fw.Rand) {
 			}
 		}(si)
 	}
+	removed := map[string]map[string]int{} // mailbox -> subject -> copies the remover took out
+	stopRemover := make(chan struct{})
+	removerDone := make(chan struct{})
+	removerErr := ""
+	if withRemover {
+		go func() {
+			defer close(removerDone)
+			sweep := func() {
+				for _, mb := range boxes {
+					ms, err := env.Store.GetMessages(mb)
+					if err != nil {
+						removerErr = fmt.Sprintf("GetMessages(%q): %v", mb, err)
+						return
+					}
+					for _, m := range ms {
+						subj := m.Subject()
+						if err := env.Store.RemoveMessage(mb, m.ID()); err == nil {
+							if removed[mb] == nil {
+								removed[mb] = map[string]int{}
+							}
+							removed[mb][subj]++
+						}
+					}
+				}
+			}
+			for {
+				select {
+				case <-stopRemover:
+					return
+				default:
+				}
+				sweep()
+				runtime.Gosched()
+			}
+		}()
+	} else {
+		close(removerDone)
+	}
 	okAll, dump := c.Within(90*time.Second, func() {
 		close(start)
 		for i := 0; i < nsess; i++ {
 			<-done
 		}
+		close(stopRemover)
+		<-removerDone
 	})
 	if !okAll {
 		c.Hang("concurrent-sessions", "concurrent SMTP sessions did not finish", dump)
@@ -217,6 +268,10 @@ func runConcurrent(c *fw.Ctx, idx int, r *fw.Rand) {
 			}
 		}
 	}
+	if removerErr != "" {
+		c.Violation("C01:store-unreadable", "the removing party: "+removerErr, nil)
+		return
+	}
 	snap, err := sut.Snapshot(env.Store, boxes, false)
 	if err != nil {
 		c.Violation("C01:store-unreadable", err.Error(), nil)
@@ -228,11 +283,12 @@ func runConcurrent(c *fw.Ctx, idx int, r *fw.Rand) {
 			have[m.Subject]++
 		}
 		for subj, n := range want[mb] {
-			if have[subj] < n {
-				c.Violation("C01:concurrent-delivery-lost", fmt.Sprintf("%s backend, %d sessions: mailbox %q holds %d copies of %q, at least %d acknowledged (mailbox has %d messages)",
-					backend, nsess, mb, have[subj], subj, n, len(snap[mb])), map[string]any{"plans": fmt.Sprint(plans)})
+			if have[subj]+removed[mb][subj] < n {
+				c.Violation("C01:concurrent-delivery-lost", fmt.Sprintf("%s backend, %d sessions: mailbox %q holds %d copies of %q and %d were removed by the other party, at least %d acknowledged (mailbox has %d messages)",
+					backend, nsess, mb, have[subj], subj, removed[mb][subj], n, len(snap[mb])), map[string]any{"plans": fmt.Sprint(plans), "with_remover": withRemover})
 				return
 			}
+			c.Count("concurrent_copies_removed_by_other_party", int64(removed[mb][subj]))
 		}
 		for subj := range have {
 			if want[mb][subj] == 0 {
